@@ -1,7 +1,7 @@
 (* C15/Props.v : the property theorems.  Model: C15/Model.v; specification: Model.denote
    (structural recursion with matrix sum/product/power over Base/Mat.embed).  *)
 From Coq Require Import ZArith List Bool Arith Sorted Permutation.
-From QV Require Import Base.Mat Base.Zi C15.MatDefs C15.Model C15.MatAlg C15.Proofs C15.Proofs2 C15.Proofs3 C15.Proofs4 C15.Proofs5 C15.Proofs6 C15.Proofs7.
+From QV Require Import Base.Mat Base.Zi C15.MatDefs C15.Model C15.MatAlg C15.Proofs C15.Proofs2 C15.Proofs3 C15.Proofs4 C15.Proofs5 C15.Proofs6 C15.Proofs7 C15.Proofs8.
 Import ListNotations.
 
 (* ---- dense route: _get_symbol_matrix / calculate_dense compute the mathematical operator ---- *)
@@ -129,8 +129,7 @@ Example samples_dense_nonvacuous :   (* Z0 on three qubits, partial map [0] *)
   is_diag M = true /\ length M = 8 /\ dense_samples M [([false], 2%Z); ([true], 6%Z)] [0] = Some ((-4)%Z, 8%Z).
 Proof. repeat split; vm_compute; reflexivity. Qed.
 
-(* ---- model builders (hamiltonians/models.py): dense builder = documented formula, for every n.
-        Heisenberg / XXZ / XXX are covered by the correspondence only (n = 2..5), not proved. ---- *)
+(* ---- model builders (hamiltonians/models.py): dense builder = documented formula, for every n ---- *)
 Theorem models_ok_tfim : forall n h, 1 < n -> tfim_dense n h = denote n (tfim_form n h).
 Proof. exact tfim_ok. Qed.
 Print Assumptions models_ok_tfim.
@@ -138,6 +137,12 @@ Print Assumptions models_ok_tfim.
 Theorem models_ok_onebody : forall n p, 0 < n -> onebody_dense n p = denote n (onebody_form n p).
 Proof. exact onebody_ok. Qed.
 Print Assumptions models_ok_onebody.
+
+(* Heisenberg(n, J, h); XXZ(n, delta) = Heisenberg(n, (-1,-1,-delta), 0) and XXX(n, J, h) =
+   Heisenberg(n, (J,J,J), h) are instances *)
+Theorem models_ok_heisenberg : forall n J hf, 1 < n -> heis_dense n J hf = denote n (heis_form n J hf).
+Proof. exact heis_ok. Qed.
+Print Assumptions models_ok_heisenberg.
 
 (* MaxCut is built symbolically; its form denotes  - sum_{i,j} adj[i][j] (I - Z_i Z_j)  ( = 2 H ) *)
 Theorem models_ok_maxcut : forall n adj, 0 < n -> denote n (maxcut2_form n adj) = maxcut2_spec n adj.
